@@ -295,3 +295,106 @@ func TestVerifC01TimeZone(t *testing.T) {
 	rep.Count("timezone_grid_points", n)
 	rep.Sample(map[string]interface{}{"grid": "14 days x 48 half-hours x 16 network sizes x upgrade12 on/off x zones UTC-11/UTC/UTC+13"})
 }
+
+// ---------------------------------------------------------------------------------- multi-shard network
+
+// A network large enough to be split into shards (> 5000 identities): after the first epoch
+// there are >= 2 shards of equal size, and activations must be assigned to the same shard on
+// every node and on every re-execution.
+func TestVerifC01Shards(t *testing.T) {
+	if !verifutil.Enabled() {
+		t.Skip("verif harness")
+	}
+	rep := verifutil.NewReport()
+	defer rep.Write()
+	seed := scenSeed(500)
+	o := Options{Seed: seed, NNodes: 2, NIdent: 5300, NAccounts: 3, AllValidated: true, EpochNoKills: true, FirstCeremonyIn: 20 * time.Minute,
+		ValidationInterval: 45 * time.Minute, StartTime: time.Date(2024, 5, 6, 9, 0, 0, 0, time.UTC)}
+	w := NewWorld(o)
+	defer w.Cleanup()
+	for i, r := range w.Replicas {
+		r.Zone = zones[i%len(zones)]
+	}
+	if !startScenario(w, rep, true) {
+		return
+	}
+	s := NewScenario(w, verifutil.NewRng(seed, 1))
+	s.Hostile, s.MaxTxs = 5, 2
+	K := 3
+	orders := map[string]bool{}
+	steps := verifutil.Scale(150, 320)
+	inv := 0
+	for i := 0; i < steps; i++ {
+		rep.Progress("C01 shards step %d", i)
+		st := w.View().AppState.State
+		// invitations by god + activations to fresh addresses (each activation picks the minimal shard)
+		if st.ValidationPeriod() == 0 && st.ShardsNum() > 1 {
+			if god, ok := w.ByAddr[st.GodAddress()]; ok && st.GodAddressInvites() > 0 && i%2 == 0 {
+				a := w.AddActor("sinv", inv)
+				inv++
+				s.SubmitGen(&Gen{Tx: w.Tx(god, types.InviteTx, &a.Addr, Dna(1), nil), Kind: "shards:Invite"})
+			}
+			for _, a := range w.SortedActors() {
+				if len(a.Name) > 4 && a.Name[:4] == "sinv" && st.GetIdentityState(a.Addr) == 1 /* Invite */ && s.R.Intn(2) == 0 {
+					dst := w.AddActor("scand", inv*7+i)
+					s.SubmitGen(&Gen{Tx: w.Tx(a, types.ActivationTx, &dst.Addr, nil, dst.Pub), Kind: "shards:Activation"})
+				}
+			}
+		}
+		w.beforeDistribute = func(b *types.Block, p *Replica) {
+			hasAct := false
+			for _, tx := range b.Body.Transactions {
+				if tx.Type == types.ActivationTx {
+					hasAct = true
+				}
+			}
+			if !hasAct && !b.Header.Flags().HasFlag(types.ValidationFinished) {
+				return
+			}
+			k := K
+			if hasAct && w.View().AppState.State.ShardsNum() > 1 {
+				k = 10
+				rep.Count("activation_blocks_in_multi_shard_network", 1)
+				sizes := w.View().AppState.State.ShardSizes()
+				min, ties := uint32(1<<31), 0
+				for _, v := range sizes {
+					if v < min {
+						min, ties = v, 1
+					} else if v == min {
+						ties++
+					}
+				}
+				if ties > 1 {
+					rep.Count("activation_blocks_with_tied_minimal_shards", 1)
+				}
+			}
+			n := 0
+			for _, r := range w.Replicas {
+				if r.Alive && n < 2 {
+					revalidate(rep, r, b, k, orders)
+					n++
+				}
+			}
+		}
+		res := s.Step()
+		w.beforeDistribute = nil
+		if len(res.Errs) > 0 {
+			reportReject(rep, 500, i, res)
+			break
+		}
+		b := res.Block
+		rep.Eval(1)
+		if b.Header.Flags().HasFlag(types.ValidationFinished) {
+			rep.Count("epochs_finished_sharded_network", 1)
+			rep.SetInfo("shards_after_epoch", w.View().AppState.State.ShardsNum())
+		}
+		rep.Max("max_shards_num", int(w.View().AppState.State.ShardsNum()))
+		if !CheckAgreement(w, rep, "C01", b) {
+			break
+		}
+		if len(b.Body.Transactions) > 0 {
+			rep.Distinct(b.Hash().Hex())
+		}
+	}
+	flushCounters(rep, w, s)
+}
